@@ -2,7 +2,7 @@
 # tools/mkworktree.sh new <name>  -> /tmp/seed/<name>: git worktree of /repo HEAD + built artefacts + helper runner
 # tools/mkworktree.sh rm <name>
 set -e
-base=/tmp/seed
+base=${SEED_BASE:-/tmp/seed}
 case "$1" in
   new)
     mkdir -p $base
